@@ -21,9 +21,32 @@ type pipeCase struct {
 	Password       string        `json:"password,omitempty"`         // C20: server requires this password
 	Cut            int           `json:"cut,omitempty"`              // C20: stream ends after this many bytes (0 = complete)
 	WriteFailAfter *int          `json:"write_fail_after,omitempty"` // C20: reply writes fail once this many bytes were written (the peer is gone)
+	// C20: requests that are not arrays of bulk strings (a status line, an integer, a bulk, an empty or nested array, ...):
+	// Odd[k] is sent before request OddPos[k] (OddPos[k] == len(Reqs): at the end)
+	OddPos []int        `json:"odd_pos,omitempty"`
+	Odd    []resp.Value `json:"odd,omitempty"`
 }
 
 func (c pipeCase) values() []resp.Value {
+	plain := c.plainValues()
+	if len(c.Odd) == 0 {
+		return plain
+	}
+	var out []resp.Value
+	for i := 0; i <= len(plain); i++ {
+		for k, pos := range c.OddPos {
+			if pos == i && k < len(c.Odd) {
+				out = append(out, c.Odd[k])
+			}
+		}
+		if i < len(plain) {
+			out = append(out, plain[i])
+		}
+	}
+	return out
+}
+
+func (c pipeCase) plainValues() []resp.Value {
 	out := make([]resp.Value, len(c.Reqs))
 	for i, r := range c.Reqs {
 		v := resp.Value{Kind: resp.Array}
